@@ -23,6 +23,11 @@ ASSUMPTIONS = ["solo evaluation through the same public API is the definition of
 NOBS = [1, 2, 5, 9, 10, 11, 14, 15, 16, 40]
 
 
+def pick_len(rng, maxlen):
+    """1, the longest path, or a length strictly in between (a shorter object then rests at its LAST pose)"""
+    return int(rng.choice([1, maxlen, int(rng.integers(1, maxlen + 1))]))
+
+
 def plan(tier):
     return {"shards": 8 if tier == "quick" else 16, "budget_s": 30 if tier == "quick" else 600,
             "required_counters": ["ragged", "mesh_last_row_alone", "surface_rows", "solo_evals"]}
@@ -68,25 +73,27 @@ def surface_point(spec):
 
 def gen_case(rng):
     mode = str(rng.choice(["group", "mixed", "ragged", "meshes", "surface"], p=[0.25, 0.25, 0.15, 0.2, 0.15]))
-    maxlen = int(rng.choice([1, 1, 2, 3]))
+    maxlen = int(rng.choice([1, 1, 2, 3, 4]))
     srcs = []
     if mode == "group":
         cls = str(rng.choice(objs.SOURCE_CLASSES))
         for _ in range(int(rng.integers(1, 4))):
-            srcs.append(objs.rand_source(rng, cls, path_len=int(rng.choice([1, maxlen]))))
+            srcs.append(objs.rand_source(rng, cls, path_len=pick_len(rng, maxlen)))
     elif mode == "mixed":
         for _ in range(int(rng.integers(1, 5))):
-            srcs.append(objs.rand_source(rng, path_len=int(rng.choice([1, maxlen]))))
+            srcs.append(objs.rand_source(rng, path_len=pick_len(rng, maxlen)))
+        for _ in range(int(rng.choice([0, 0, 1, 2, 3]))):  # custom sources, each with its OWN field function
+            srcs.append(objs.rand_custom(rng, path_len=pick_len(rng, maxlen)))
     elif mode == "ragged":
         cls = str(rng.choice(["Polyline", "TriangularMesh"]))
         for _ in range(int(rng.integers(2, 4))):
-            srcs.append(objs.rand_source(rng, cls, path_len=int(rng.choice([1, maxlen]))))
+            srcs.append(objs.rand_source(rng, cls, path_len=pick_len(rng, maxlen)))
         if rng.random() < 0.5:
             srcs.append(objs.rand_source(rng, path_len=1))
     elif mode == "meshes":
         for _ in range(int(rng.integers(2, 4))):
             s = objs.rand_source(rng, str(rng.choice(["TriangularMesh", "Tetrahedron", "TriangularMesh"])),
-                                 path_len=int(rng.choice([1, maxlen])))
+                                 path_len=pick_len(rng, maxlen))
             s["position"] = (np.array(s["position"]) * 3).tolist()
             srcs.append(s)
         if rng.random() < 0.5:  # same mesh twice (grouping loop merges equal meshes)
@@ -134,13 +141,14 @@ def gen_case(rng):
         pts = [surface_point(srcs[0]) for _ in range(n)]
         kinds = ["surface"] * n
     use_sensors = mode != "surface" and rng.random() < 0.4
-    case = {"mode": mode, "sources": srcs, "field": str(rng.choice(list("BHJM"))), "kinds": kinds}
+    has_custom = any(x["cls"] == "CustomSource" for x in srcs)
+    case = {"mode": mode, "sources": srcs, "field": str(rng.choice(list("BH" if has_custom else "BHJM"))), "kinds": kinds}
     if use_sensors:
         K = int(rng.integers(1, 4))
         pix = np.array(pts).reshape(-1, 3)
         sens = []
         for _ in range(K):
-            L = int(rng.choice([1, maxlen]))
+            L = pick_len(rng, maxlen)
             sens.append({"cls": "Sensor", "pixel": (pix * 0.5).tolist(), "handedness": "right",
                          "position": (rng.normal(size=(L, 3)) * 0.5).tolist(),
                          "orientation": objs.rand_rot(rng, L)})
